@@ -66,6 +66,7 @@ fn run_replay(id: &str, path: &std::path::Path) -> i32 {
     println!("replaying {} ({})", path.display(), j["signature"].as_str().unwrap_or("?"));
     println!("  recorded: {}", j["summary"].as_str().unwrap_or(""));
     let r = match replay["engine"].as_str() {
+        Some("repl-heap") => sim::replheap::replay(replay),
         Some("sim") => {
             let (mon, oracle) = sim::checks::monitor_for(id);
             sim::driver::replay(replay, mon, oracle, true)
